@@ -251,8 +251,7 @@ def execute(scn):
         counts["order_sensitive_launches"] += 1
     counts["extra_evaluations"] = max(0, counts["schedules"] - 1)
     counts["choices_after_shifted_launch_sequence"] = SHIFTED[0]
-    counts["choices_after_shifted_launch_sequence"] = SHIFTED[0]
-  return c.result(nontrivial=nontrivial, key=util.sha(scn), counts=counts, info=dict(chunk=[scn["lo"], scn["hi"]]))
+    return c.result(nontrivial=nontrivial, key=util.sha(scn), counts=counts, info=dict(chunk=[scn["lo"], scn["hi"]]))
 
   # pairs: launches L1 in chunk, L2 > L1 sharing a written array, both descending
   nontrivial = False
